@@ -216,6 +216,13 @@ class Img:
             def __truediv__(s, k):
                 return s.data / k
 
+            def __floordiv__(s, k):         # z3 to_int is floor
+                return z3.ToReal(z3.ToInt(_r(s.data) / k))
+
+            def __mul__(s, k):
+                return s.data * k
+            __rmul__ = __mul__
+
         class D:
             def sel(s, band_disp):
                 return W(d[0] if band_disp == "min" else d[1])
